@@ -114,6 +114,15 @@ def grid_sample(rng, N, kx, ky, kz, kind):
         Y = Y // 4 + X[:, :1] * int(rng.integers(-2, 3)) // 2
         if Z is not None:
             Z = Z // 4 + Y[:, :1] // 2
+    if kind == "fine" and rng.random() < 0.3:      # variables of very different scales (still tie-free): one block is tiny
+        sh = int(rng.integers(max(1, s - 6), s))
+        which = int(rng.integers(0, 3 if Z is not None else 2))
+        if which == 0:
+            X = X >> sh
+        elif which == 1:
+            Y = Y >> sh
+        else:
+            Z = Z >> sh
     return X, Y, Z, S
 
 
@@ -210,6 +219,9 @@ def run(chk):
         metric = str(rng.choice(list(METRICS)))
         M = rng.normal(size=(kx + ky + kz, kx + ky + kz)) * 10.0 ** rng.uniform(-2, 2)
         W = rng.normal(size=(N, kx + ky + kz)) @ M + rng.normal(size=(1, kx + ky + kz)) * 5
+        if rng.random() < 0.4:            # columns of very different magnitude (1e-7 .. 1e3)
+            W = rng.normal(size=(N, kx + ky + kz)) * 10.0 ** rng.uniform(-7, 3, (1, kx + ky + kz))
+            chk.count("knn_float.mixed_scales")
         Xf, Yf, Zf = W[:, :kx], W[:, kx:kx + ky], (W[:, kx + ky:] if cond else None)
         blocks = [(tuple(Fraction(v) for v in Xf[i]), tuple(Fraction(v) for v in Yf[i]),
                    tuple(Fraction(v) for v in Zf[i]) if cond else ()) for i in range(N)]
@@ -283,18 +295,24 @@ def run(chk):
         kx, ky, kz = int(rng.integers(1, 4)), int(rng.integers(1, 4)), int(rng.integers(1, 4))
         W_ = rng.normal(size=(N, kx + ky + kz)) @ rng.normal(size=(kx + ky + kz, kx + ky + kz)) + rng.normal(size=(1, kx + ky + kz))
         Xf, Yf, Zf = W_[:, :kx], W_[:, kx:kx + ky], W_[:, kx + ky:]
-        bw = str(rng.choice(["silverman", "scott"])) if rng.random() < 0.5 else float(rng.uniform(0.1, 3.0))
-        which = str(rng.choice(["entropy", "mi", "cmi"]))
-        v = float(kde_entropy(Xf, bandwidth=bw) if which == "entropy" else
-                  kde_mutual_information(Xf, Yf, bandwidth=bw) if which == "mi" else
-                  kde_conditional_mutual_information(Xf, Yf, Zf, bandwidth=bw))
-        ref = kde_reference(which, Xf, Yf, Zf, bw)
-        chk.case(key=("kdef", W_.tobytes(), str(bw), which), nontrivial=True)
-        chk.count("kde_float.calls")
-        if not math.isfinite(v) or abs(v - ref) > TOL * max(1.0, abs(ref)):
-            chk.violation("counterexample", f"KDE {which} (bandwidth={bw}, N={N}) returned {v}; the definition gives {ref}",
-                          {"estimator": "kde", "which": which, "bandwidth": bw, "X": Xf.tolist(), "Y": Yf.tolist(), "Z": Zf.tolist(),
-                           "returned": v, "formula": ref})
+        which = str(rng.choice(["entropy", "mi", "cmi", "cmi"]))
+        # a short call history on the SAME data: every call must still be the formula for ITS bandwidth
+        bws = [str(rng.choice(["silverman", "scott"])) if rng.random() < 0.5 else float(rng.uniform(0.1, 3.0))
+               for _ in range(int(rng.integers(1, 4)))]
+        hist = []
+        for bw in bws:
+            v = float(kde_entropy(Xf, bandwidth=bw) if which == "entropy" else
+                      kde_mutual_information(Xf, Yf, bandwidth=bw) if which == "mi" else
+                      kde_conditional_mutual_information(Xf, Yf, Zf, bandwidth=bw))
+            ref = kde_reference(which, Xf, Yf, Zf, bw)
+            hist.append((bw, v))
+            chk.case(key=("kdef", W_.tobytes(), str(bw), which, len(hist)), nontrivial=True)
+            chk.count("kde_float.calls")
+            if not math.isfinite(v) or abs(v - ref) > TOL * max(1.0, abs(ref)):
+                chk.violation("counterexample", f"KDE {which} (bandwidth={bw}, N={N}) returned {v} as call {len(hist)} of the history "
+                              f"{[b for b, _ in hist]} on the same data; the definition gives {ref}",
+                              {"estimator": "kde", "which": which, "bandwidth_history": [b for b, _ in hist], "X": Xf.tolist(),
+                               "Y": Yf.tolist(), "Z": Zf.tolist(), "returned": v, "formula": ref})
     chk.rule = ("kNN: N 4..40, block dimensions 1..3, Z present/absent, k in 1..min(10,N-1) with k = N-1 forced in a fifth of the cases, "
                 "metrics euclidean/cityblock/chebyshev, integer grids of range 5 (tie-heavy, often undefined), 50, and dyadic grids 2^-8..2^-20 "
                 "(tie-free in practice), through the two estimator functions, the Z=None path and the dispatcher; the implementation's value "
